@@ -63,6 +63,7 @@ var (
 	events   []*event
 	seq      int
 	nowCalls atomic.Int64
+	nowWait  atomic.Int64 // how long a tick waits for its reader's clock read (ns)
 	// AutoAdvance makes Sleep and a receive-less After/Sleep move the virtual
 	// clock themselves (single-threaded scenarios such as RetryWithDelay).
 	autoAdvance bool
@@ -84,6 +85,9 @@ var Base = time.Unix(1_000_000_000, 0)
 
 // Enable switches to a fresh virtual clock at Base.
 func Enable(auto bool) {
+	if nowWait.Load() == 0 {
+		nowWait.Store(int64(2 * time.Second))
+	}
 	mu.Lock()
 	virtual, now, events, seq, autoAdvance = true, Base, nil, 0, auto
 	mu.Unlock()
@@ -245,7 +249,14 @@ func deliverTick(e *event, at time.Time, wait time.Duration) {
 			mu.Unlock()
 			return false
 		}
-		for i := 0; i < 2000 && nowCalls.Load() == n0; i++ {
+		// the reader is alive (it took the tick): give it time to sample the clock even on a loaded
+		// machine; a reader that never reads the clock costs this wait once, then a short one
+		deadline := time.Now().Add(time.Duration(nowWait.Load()))
+		for nowCalls.Load() == n0 {
+			if time.Now().After(deadline) {
+				nowWait.Store(int64(2 * time.Millisecond))
+				break
+			}
 			time.Sleep(5 * time.Microsecond)
 		}
 		return true
